@@ -4,6 +4,7 @@ package backend
 
 import (
 	"bytes"
+	"time"
 
 	proto "github.com/kubewharf/kubebrain-client/api/v2rpc"
 
@@ -380,6 +381,50 @@ func VerifC13Order() {
 		<-done
 		zzverif.StopExploring()
 		w.s.Yield = nil
+	}
+	zzverif.Cover("done")
+}
+
+// VerifC13PieceFails: three keys in three pieces, and the engine cannot read one of the pieces at
+// all (every step of every iterator on it fails, through all of the scan's retries) while the
+// other pieces are healthy — and, natively, slow, so that they finish after the failed one: an
+// unlimited range read and a count fail, and a streamed range ends with one terminator that
+// carries the error. None of them answers with part of the data as if it were all of it.
+func VerifC13PieceFails() {
+	w := vNewWorld(3)
+	w.create("k0", vNames[0])
+	w.create("k1", vNames[1])
+	w.create("k2", vNames[2])
+	zzverif.WaitIdle()
+	p := &vPartitioner{w: w}
+	p.borders = [][]byte{w.b.coder.EncodeObjectKey(vNames[2], 0), w.b.coder.EncodeObjectKey(vNames[1], 0)} // "/r/a-b" < "/r/a/b"
+	w.s.Partitions = p.partitions
+	rg := vRanges[0]
+	starts := [][]byte{w.b.coder.EncodeObjectKey(rg[0], 0), p.borders[0], p.borders[1]}
+	bad := starts[zzverif.Choose("failingPiece", 3)]
+	w.s.IterFault = func(start []byte, step int) bool {
+		if bytes.Equal(start, bad) {
+			zzverif.Cover("piece-unreadable")
+			return true
+		}
+		if step == 0 && !zzverif.Symbolic() {
+			time.Sleep(time.Duration(zzverif.Param("native_slow_ms", 6000)) * time.Millisecond)
+		}
+		return false
+	}
+	switch zzverif.Choose("read", 3) {
+	case 0:
+		_, err := w.b.List(vCtx(), &proto.RangeRequest{Key: rg[0], End: rg[1]})
+		zzverif.Assert(err != nil, "a range read one of whose pieces cannot be read fails")
+	case 1:
+		_, err := w.b.Count(vCtx(), &proto.CountRequest{Key: rg[0], End: rg[1]})
+		zzverif.Assert(err != nil, "a count one of whose pieces cannot be read fails")
+	default:
+		ch, err := w.b.ListByStream(vCtx(), starts[0], w.b.coder.EncodeObjectKey(rg[1], 0), 0)
+		zzverif.Assert(err == nil, "stream starts")
+		_, nterm, errText, _, _ := vDrain(ch)
+		zzverif.Assert(nterm == 1, "stream ends with exactly one terminator")
+		zzverif.Assert(errText != "", "a stream one of whose pieces cannot be read ends with the error")
 	}
 	zzverif.Cover("done")
 }
